@@ -48,13 +48,24 @@ def check_columns(case):
     order = ordered_columns(case)
     runs = {}
     pt = spec.pandas_tables(case, names)
+    if case.get("wide_tables"):
+        # the stored tables are WIDER than their descriptions (a description may list a subset of the columns):
+        # nothing of the extra column may surface in any result
+        for tn in pt:
+            pt[tn] = pt[tn].copy()
+            pt[tn]["zz_undeclared_" + tn] = 7
     try:
         runs["pandas"] = engines.run_pandas(ops, pt)[0]
     except engines.EngineError as e:
         info["raised_pandas"] = e.bucket()
     for lazy in (False, True):
         try:
-            runs["polars_lazy" if lazy else "polars"] = engines.run_polars(ops, spec.polars_tables(case, names), lazy=lazy)[0]
+            plt = spec.polars_tables(case, names)
+            if case.get("wide_tables"):
+                import polars as pl
+
+                plt = {tn: df.with_columns(pl.lit(7).alias("zz_undeclared_" + tn)) for tn, df in plt.items()}
+            runs["polars_lazy" if lazy else "polars"] = engines.run_polars(ops, plt, lazy=lazy)[0]
         except engines.EngineError as e:
             info["raised_polars"] = e.bucket()
     for dialect in ("sqlite", "pg"):
@@ -130,4 +141,7 @@ def run(ctx):
                 ev.count(k)
         return f
 
-    ctx.campaign("main", gen.programs(cfg), oracle, max_examples=ctx.n(350, 32000))
+    from hypothesis import strategies as st
+
+    strat = st.tuples(gen.programs(cfg), st.booleans()).map(lambda t: {**t[0], "wide_tables": t[1]})
+    ctx.campaign("main", strat, oracle, max_examples=ctx.n(350, 32000))
